@@ -123,10 +123,16 @@ func c02MapModel(maxPre, steps int) {
 		e := model[key]
 		vis := c02Visible(e, now)
 		switch rt.Choice(tag, 9) {
-		case 8: // relative expiry: takes effect with the next write, record stays visible
-			err := db.SetRelativateExpiry("t:"+key, 60)
+		case 8: // relative expiry (60 s, or 0 = switch the self-updating expiry off): the record stays visible
+			d := int64(60 * rt.Choice(tag+".ttl", 2))
+			err := db.SetRelativateExpiry("t:"+key, d)
 			if vis {
 				rt.Assert(err == nil, "model/setrelativeexpiry-visible-ok")
+				if st, serr := c.storage.Get(key); serr == nil {
+					// the stored metadata records the new setting (a pending
+					// relative expiry is a negative Deleted value)
+					rt.Assert(st.Meta().Deleted == -d, "model/relative-expiry-setting-stored")
+				}
 			} else {
 				rt.Assert(errors.Is(err, ErrNotFound), "model/setrelativeexpiry-invisible-is-not-found")
 			}
